@@ -102,7 +102,8 @@ class SyncTable:
         if init is None:
             raise AnalysisError(f"{cls}.__init__ not found")
         self.init = init
-        for n in ast.walk(init.node):
+        # (the constructor and the helper methods that only ever run as part of it)
+        for n in [x for f_ in program.ctor_funcs(cls) for x in ast.walk(f_.node)]:
             if isinstance(n, ast.Assign) and len(n.targets) == 1:
                 a = self_attr(n.targets[0])
                 if a is None:
